@@ -1524,3 +1524,31 @@ pub fn run_blocks_msg(c: &[u64]) -> Option<Vec<u64>> {
     }
     Some(out)
 }
+
+// ------------------------------------------------------------------ helpers of kind 8
+
+/// `cidspec t` with t in {0, 1} (a want or a presence).
+pub fn gen_want(rng: &mut Rng, c: &mut Vec<u64>) {
+    let s = gen_cid(rng);
+    put_cidspec(s.0, s.1, s.2, &s.3, c);
+    c.push(rng.below(2));
+}
+
+/// A count-prefixed list of `cidspec t` starting at `at`; the list and the index behind it.
+pub fn read_wants(c: &[u64], at: usize) -> Option<(Vec<(Cid, u64)>, usize)> {
+    let mut rd = Rd { c, i: at };
+    let n = rd.n()? as usize;
+    if n > c.len() {
+        return None;
+    }
+    let mut v = Vec::new();
+    for _ in 0..n {
+        let cid = rd.cid()?;
+        let t = rd.n()?;
+        if t > 1 {
+            return None;
+        }
+        v.push((cid, t));
+    }
+    Some((v, rd.i))
+}
